@@ -119,6 +119,12 @@ fn eval_redeemer_with_optional_protocol(
             return Err(Error::Machine(err, cost, eval_result.traces()));
         }
 
+        // The ledger also rejects a script that terminates with a result its language does not
+        // accept (anything but unit in Plutus V3).
+        if eval_result.failed(false, lang) {
+            return Err(Error::InvalidScriptResult(lang.clone(), cost));
+        }
+
         let new_redeemer = Redeemer {
             tag: redeemer.tag,
             index: redeemer.index,
